@@ -33,7 +33,7 @@ func init() {
 
 var saltedLeaseRe = regexp.MustCompile(`/h[0-9a-f]{64}(\.[A-Za-z0-9]+)?$`)
 
-var c06Kinds = []string{"creds", "creds-1use", "creds-wrapped", "login", "login-wrapped", "token-create", "token-create-orphan", "token-create-role", "token-create-root", "token-create-periodic"}
+var c06Kinds = []string{"creds", "creds-1use", "creds-wrapped", "login", "login-wrapped", "token-create", "token-create-orphan", "token-create-role", "token-create-root", "token-create-periodic", "creds-batch", "creds-batch-orphan"}
 
 type c06Snap struct {
 	lease, idx, tok []string
@@ -85,6 +85,15 @@ path "auth/token/create/*" { capabilities = ["update"] }
 	must(err)
 	oneUse, _, err := h0.CreateToken("", map[string]any{"policies": []string{"p"}, "ttl": "2h", "num_uses": 1})
 	must(err)
+	// batch tokens: a child of `caller` (its leases are indexed under the
+	// parent) and an orphan one from a login; both live 10 minutes, i.e.
+	// shorter than the longest secret TTL drawn above
+	batchTok, _, err := h0.CreateToken(caller, map[string]any{"policies": []string{"p"}, "ttl": "10m", "type": "batch"})
+	must(err)
+	batchOrphan := ""
+	if lr, err := h0.Do("setup", Req{Op: logical.UpdateOperation, Path: "auth/rec/login", Data: map[string]any{"policies": "p", "ttl": 600, "token_type": "batch"}}); err == nil && lr != nil && lr.Auth != nil {
+		batchOrphan = lr.Auth.ClientToken
+	}
 	h0.Shutdown()
 
 	mkReq := func() Req {
@@ -99,6 +108,10 @@ path "auth/token/create/*" { capabilities = ["update"] }
 			return Req{Op: logical.UpdateOperation, Path: "rec/creds/a", Token: oneUse, Data: data}
 		case "creds-wrapped":
 			return Req{Op: logical.UpdateOperation, Path: "rec/creds/a", Token: caller, Data: data, WrapTTL: 5 * time.Minute}
+		case "creds-batch":
+			return Req{Op: logical.UpdateOperation, Path: "rec/creds/a", Token: batchTok, Data: data}
+		case "creds-batch-orphan":
+			return Req{Op: logical.UpdateOperation, Path: "rec/creds/a", Token: batchOrphan, Data: data}
 		case "login":
 			data["policies"] = "p"
 			return Req{Op: logical.UpdateOperation, Path: "auth/rec/login", Data: data}
@@ -219,7 +232,9 @@ path "auth/token/create/*" { capabilities = ["update"] }
 					s.Violate("C06", "secret-without-lease", sig, "a secret was handed out but %d lease entries exist for it; %s", len(secLease), desc)
 					return false
 				}
-				if len(newIdx) < 1 {
+				// (an orphan batch token is not persisted and has no parent: there is
+				// no token to index its leases under - documented in Register)
+				if len(newIdx) < 1 && kind != "creds-batch-orphan" {
 					s.Violate("C06", "secret-without-token-index", sig, "a secret was handed out, its lease has no token index entry; %s", desc)
 					return false
 				}
@@ -228,7 +243,7 @@ path "auth/token/create/*" { capabilities = ["update"] }
 			// nothing handed out
 			if issued > revoked {
 				// generated at the backend, not revoked: then it must be fully recorded
-				if len(secLease) == 1 && len(newIdx) >= 1 {
+				if len(secLease) == 1 && (len(newIdx) >= 1 || kind == "creds-batch-orphan") {
 					return true
 				}
 				s.Violate("C06", "secret-leaked-at-backend", sig, "the request failed, the generated secret was neither revoked at its backend nor fully recorded; %s", desc)
@@ -236,7 +251,7 @@ path "auth/token/create/*" { capabilities = ["update"] }
 			}
 			// revoked (or never generated): no remnants naming it
 			if len(secLease) > 0 {
-				if kind == "creds-1use" || len(newIdx) >= 1 {
+				if kind == "creds-1use" || kind == "creds-batch-orphan" || len(newIdx) >= 1 {
 					// lease still queued for (lazy) revocation with its index: tracked, fine
 					return true
 				}
